@@ -71,4 +71,9 @@ FIXED_TEXTS = ["", " ", "\n", "// only a comment", "// c\n", "zzz packet A { u8 
                "packet A { u8 x `doc` , }", "options { A = char[3]; B = \"s\" C = 5; D = '0' E = true; F = u8 G = string; }",
                "MetaData M { u8 a `d`, A b `e`, char[3] c, zchar[4] d `x`, string e, char[] f, }",
                "packet A { match k as m { [1,2,\"a\"] : B, \"x\" : C 3 : D } , }", "packet A { X Y `d`, repeat X, repeat X Y, X, }",
-               "packet A { @tag(5) @lengthOf(b) @calculatedFrom(\"x\") @rightPad('\\x00') u8 x, }"]
+               "packet A { @tag(5) @lengthOf(b) @calculatedFrom(\"x\") @rightPad('\\x00') u8 x, }",
+               "root packet A {\n    u8 k,\n    match k as m {\n        [\"a\", 1, \"b\", 2] : B,\n    },\n}\npacket B {\n}\n",
+               "root packet A {\n    u8 x `first line\nsecond line`,\n    B b `doc of an object field`,\n}\npacket B {\n}\n",
+               "// leading\nroot packet A { // after brace\n    // before attr\n    @tag(1)\n    u8 x, // same line\n    // before rbrace\n}\n// trailing\n",
+               "root packet A {\n    u8 k,\n    match k as m {\n        1 : B, // after last pair\n    },\n}\npacket B {\n}\n",
+               "MetaData M {\n    // inside metadata\n    u8 a `d`, // right of entry\n}\n"]
